@@ -371,9 +371,17 @@ def run_case(case, seed=0, solver_timeout_ms=60000, cvc5=False, selfcheck_points
     # ---------------------------------------------------------------- encoding self-check
     rng = random.Random(seed + 1)
     sc_max = 0.0
-    for _ in range(selfcheck_points):
+    done_pts, attempts = 0, 0
+    while done_pts < selfcheck_points:
+        attempts += 1
+        if attempts > selfcheck_points + 6:
+            res.update(status="error", detail="self-check: could not find a non-singular evaluation point")
+            return res
         env = gen_env(case, ctx, rng)
-        If = eval_inputs(I, env)
+        try:
+            If = eval_inputs(I, env)
+        except ZeroDivisionError:
+            continue
         for fx in ctx.env_fixups:
             fx(env)
         try:
@@ -386,11 +394,22 @@ def run_case(case, seed=0, solver_timeout_ms=60000, cvc5=False, selfcheck_points
         if len(ls) != len(lf):
             res.update(status="error", detail="self-check: output tree mismatch")
             return res
+        singular = False
+        vals = []
         for (p1, a), (p2, f) in zip(ls, lf):
             av = np.empty(a.shape, dtype=float)
             avf = av.reshape(-1)
-            for k, s in enumerate(a.reshape(-1)):
-                avf[k] = s.evalf(env)
+            try:
+                for k, s in enumerate(a.reshape(-1)):
+                    avf[k] = s.evalf(env)
+            except ZeroDivisionError:
+                singular = True        # the seeded point lies on a pole of the symbolic output: take another point
+                break
+            vals.append(av)
+        if singular:
+            continue
+        done_pts += 1
+        for (p1, a), (p2, f), av in zip(ls, lf, vals):
             if av.shape != np.asarray(f).shape:
                 res.update(status="error", detail=f"self-check: shape mismatch at {p1}: {av.shape} vs {np.asarray(f).shape}")
                 return res
@@ -657,7 +676,10 @@ def run_case(case, seed=0, solver_timeout_ms=60000, cvc5=False, selfcheck_points
 
 def _replay(case, I, env, natural=False):
     from .spec import FloatOps
-    If = eval_inputs(I, env)
+    try:
+        If = eval_inputs(I, env)
+    except ZeroDivisionError:
+        return {"inputs": {}, "reproduced": False, "error": "replay point lies on a pole of a derived input"}
     out = {"inputs": {k: v.tolist() for k, v in If.items()}, "reproduced": False}
     try:
         Of = real_run(case, If)
